@@ -298,6 +298,17 @@ def runMonFrom : List Url → Nat → List (MCase × Obs) → Option (Nat × Cla
 
 def runMon (tr : List (MCase × Obs)) : Option (Nat × Clause) := runMonFrom [] 0 tr
 
+/-! ### The challenge stream
+
+`www` records are judged by plain equality with the Lean parser (Challenge.lean): no clause.  A
+`wwwfuzz` record (arbitrary bytes) has one clause: the parser panicked. -/
+
+/-- Observation of a `wwwfuzz` record that the model gives (and the property demands). -/
+def fuzzOk : String := "nopanic"
+
+/-- Does the "ParseWWWAuthenticate panics" clause fire on the implementation's observation? -/
+def chkFuzz (impl : String) : Bool := impl != fuzzOk
+
 /-! ### The model's observation -/
 
 /-- The observation does not carry the kind of a GET. -/
